@@ -165,6 +165,40 @@ def scenarios(prop, tier, seed=0):
         if not q:
             L.append(S('c14_p1_fut_sync_drop', [T('A', ('d_new', 'd'), ('d_future_desync', 'd', {'fut': ('gate', 0), 'as': 'f'}), ('detach', 'f'), ('d_sync', 'd'), ('d_drop', 'd')), T('W', ('open_gate', 0))],
                        pool_max=1, queues=0, R=3, B=18, oracles=MEM))
+    elif prop == 'C15':
+        PAN = {'acts': ['enter', 'panic']}
+        OR15 = ('panic_unexpected', 'panic_contained', 'overlap', 'ran_twice', 'deadlock')
+        def S15(name, threads, expect, **kw):
+            s_ = S(name, threads, oracles=OR15, **kw); s_['scen']['unwind'] = True; s_['scen']['expect_panic'] = expect; return s_
+        # the job panics on the pool's only thread; afterwards (thread gone) Y uses a healthy object, which needs a replacement thread, Z hits the panicked one
+        L.append(S15('c15_p1_pool_panic', [T('A', ('desync', 0, PAN)), T('Y', ('desync', 1), after=['A', 'P0']),
+                                           T('Z', ('try_sync', 0, {'must_panic': True}), final=True, after=['A', 'P0', 'Y'])],
+                     ['pool', 'Z'], pool_max=1, pool_slots=2, queues=2, R=3, B=16))
+        # the job panics in the sync caller
+        L.append(S15('c15_p0_sync_panic', [T('A', ('sync', 0, PAN)), T('Y', ('sync', 1), final=True, after=['A']),
+                                           T('Z', ('desync', 0, {'must_panic': True}), final=True, after=['A'])],
+                     ['A', 'Z'], pool_max=0, queues=2, R=2, B=20))
+        # the job is a future that wakes itself and panics while a pool thread polls it (queue is AwokenWhileRunning when the guard unwinds)
+        L.append(S15('c15_p1_future_panic', [T('A', ('future_desync', 0, {'fut': 'wake_panic', 'as': 'f'}), ('detach', 'f')), T('Y', ('desync', 1), after=['A', 'P0']),
+                                             T('Z', ('try_sync', 0, {'must_panic': True}), final=True, after=['A', 'P0', 'Y'])],
+                     ['pool', 'Z'], pool_max=1, pool_slots=2, queues=2, R=3, B=16))
+        if not q:
+            L.append(S15('c15_p1_future_panic_nowake', [T('A', ('future_desync', 0, {'fut': 'panic', 'as': 'f'}), ('detach', 'f')), T('Y', ('desync', 1), after=['A', 'P0']),
+                                                        T('Z', ('sync', 0, {'must_panic': True}), final=True, after=['A', 'P0', 'Y'])],
+                         ['pool', 'Z'], pool_max=1, pool_slots=2, queues=2, R=3, B=16))
+            L.append(S15('c15_p0_sync_panic_sync', [T('A', ('sync', 0, PAN)), T('Y', ('desync', 1), ('sync', 1), final=True, after=['A']),
+                                                    T('Z', ('sync', 0, {'must_panic': True}), final=True, after=['A'])],
+                         ['A', 'Z'], pool_max=0, queues=2, R=2, B=20))
+            L.append(S15('c15_p1_pool_panic_desync', [T('A', ('desync', 0, PAN)), T('Y', ('desync', 1), ('sync', 1), after=['A', 'P0']),
+                                                      T('Z', ('desync', 0, {'must_panic': True}), final=True, after=['A', 'P0', 'Y'])],
+                         ['pool', 'Z'], pool_max=1, pool_slots=2, queues=2, R=3, B=16))
+            # a queued second job on the panicked object is never run; sync on it fails
+            L.append(S15('c15_p1_pool_panic_queued', [T('A', ('desync', 0, PAN), ('desync', 0, {'must_panic': True})), T('Y', ('desync', 1), after=['A', 'P0']),
+                                                      T('Z', ('sync', 0, {'must_panic': True}), final=True, after=['A', 'P0', 'Y'])],
+                         ['pool', 'Z'], pool_max=1, pool_slots=2, queues=2, R=3, B=16))
+            L.append(S15('c15_p2_pool_panic', [T('A', ('desync', 0, PAN)), T('B', ('desync', 1)), T('Y', ('desync', 2), after=['A', 'B', 'P0']),
+                                               T('Z', ('try_sync', 0, {'must_panic': True}), final=True, after=['A', 'B', 'P0', 'Y'])],
+                         ['pool', 'Z'], pool_max=2, pool_slots=3, queues=3, R=3, B=14))
     return L
 
 def bounds_text(prop, tier):
